@@ -130,19 +130,26 @@ def run(ctx):
         else:
             continue
         n3 += 1
-        ok = how == "replace"
-        if not ok:
-            # guarded by an absence test
-            p = getattr(node, "_parent", None)
-            while p is not None and p is not lp:
-                if isinstance(p, ast.If):
-                    fs = facts(p.test, True)
-                    if any(tv and re.fullmatch(rf"FTag\.\w+ not in {copy}", a) and fo.tag(ast.parse(a.split(' ')[0], mode='eval').body) == tag for a, tv in fs):
-                        ok = True
-                p = getattr(p, "_parent", None)
+        # guarded by an absence test?
+        absent = False
+        p = getattr(node, "_parent", None)
+        child = node
+        while p is not None and p is not lp:
+            if isinstance(p, ast.If) and any(child is x or any(child is y for y in ast.walk(x)) for x in p.body):
+                fs = facts(p.test, True)
+                if any(tv and re.fullmatch(rf"FTag\.\w+ not in {copy}", a) and fo.tag(ast.parse(a.split(' ')[0], mode='eval').body) == tag for a, tv in fs):
+                    absent = True
+            child = p
+            p = getattr(p, "_parent", None)
+        ok = how == "replace" or absent
         ctx.instance(R3, f"_process_resend[{copy}[{tag}] marking]", ok,
                      f"`{short(node)}` writes tag {tag} into the journaled copy without replace=True or an absence guard: the copy re-journaled by an earlier resend of "
                      "the same range already carries it, DuplicatedTagError aborts the replay half-way", loc(node))
+        if tag == "122":
+            # the copy re-journaled by an earlier resend carries the ORIGINAL time in 122 and the resend's time in 52: 122 is written only when absent
+            ctx.instance(R3, f"_process_resend[{copy}[122] kept when present]", absent,
+                         f"`{short(node)}` overwrites an OrigSendingTime the journaled copy already carries: from the second resend of a range on, tag 122 is the time of the "
+                         "previous retransmission, not of the original message", loc(node))
     if n3 < 2:
         raise AnalysisError("_process_resend: the PossDupFlag / OrigSendingTime marking was not found")
 
@@ -179,10 +186,18 @@ def run(ctx):
     ctx.instance(R4, "_process_resend[PossDupFlag=Y]", len(poss) == 1, "the replayed copy is not marked PossDupFlag=Y", loc(lp))
     # OrigSendingTime from tag 52, read before 52 is deleted
     lg = g
-    orig = [n for n in g.nodes if n.kind == "stmt" and isinstance(n.ast, ast.Assign) and isinstance(n.ast.targets[0], ast.Subscript)
-            and unparse(n.ast.targets[0].value) == copy and fo.tag(n.ast.targets[0].slice) == "122"]
+    def _orig_value(n):
+        """value expression written to tag 122 by statement node n (item assignment or .set call), else None"""
+        a = n.ast
+        if isinstance(a, ast.Assign) and isinstance(a.targets[0], ast.Subscript) and unparse(a.targets[0].value) == copy and fo.tag(a.targets[0].slice) == "122":
+            return a.value
+        c = a.value if isinstance(a, ast.Expr) else None
+        if isinstance(c, ast.Call) and unparse(c.func) == f"{copy}.set" and len(c.args) >= 2 and fo.tag(c.args[0]) == "122":
+            return c.args[1]
+        return None
+    orig = [n for n in g.nodes if n.kind == "stmt" and n.ast is not None and _orig_value(n) is not None]
     del52 = [n for n in g.nodes if n.kind == "stmt" and isinstance(n.ast, ast.Delete) and any(isinstance(t, ast.Subscript) and fo.tag(t.slice) == "52" for t in n.ast.targets)]
-    ok = bool(orig) and all(isinstance(n.ast.value, ast.Subscript) and unparse(n.ast.value.value) == copy and fo.tag(n.ast.value.slice) == "52" for n in orig)
+    ok = bool(orig) and all(isinstance(_orig_value(n), ast.Subscript) and unparse(_orig_value(n).value) == copy and fo.tag(_orig_value(n).slice) == "52" for n in orig)
     if ok and del52:
         ok = not any(g.reaches(d.id, o.id, avoid=[n.id for n in g.nodes if n.kind == "for"], exc=False) for d in del52 for o in orig)
     ctx.instance(R4, "_process_resend[OrigSendingTime := SendingTime before it is deleted]", ok,
@@ -196,20 +211,30 @@ def run(ctx):
             if vals and all(isinstance(v, EnumVal) and v.cls == "FMsg" for v in vals):
                 noreply = (n.targets[0].id, {v.name for v in vals}, n)
     if noreply is None:
+        # written in place: `<copy>[MsgType] in {FMsg.A, ...}`
+        for n in walk_no_nested(lp):
+            if isinstance(n, ast.Compare) and len(n.ops) == 1 and isinstance(n.ops[0], ast.In) and isinstance(n.comparators[0], (ast.Set, ast.Tuple, ast.List)):
+                vals = [fo.fold(e) for e in n.comparators[0].elts]
+                if vals and all(isinstance(v, EnumVal) and v.cls == "FMsg" for v in vals):
+                    noreply = (unparse(n.comparators[0]), {v.name for v in vals}, n)
+    if noreply is None:
         raise AnalysisError("_process_resend: the no-replay set was not found")
     nm, members, node = noreply
     ctx.instance(R5, "_process_resend[no-replay set ⊇ session-level types]", ADMIN <= members,
                  f"the no-replay set lacks {sorted(ADMIN - members)}: such session-level messages are retransmitted", loc(node), evals=len(members))
-    # the flag and the polarity
-    flag = None
+    # the membership test and its polarity (as a local flag, or written in place)
+    member = None
     for n in walk_no_nested(lp):
-        if isinstance(n, ast.Assign) and isinstance(n.value, ast.Compare) and isinstance(n.value.ops[0], ast.In) and unparse(n.value.comparators[0]) == nm \
-                and isinstance(n.targets[0], ast.Name):
-            ok_t = isinstance(n.value.left, ast.Subscript) and unparse(n.value.left.value) == copy and fo.tag(n.value.left.slice) == "35"
-            flag = (n.targets[0].id, ok_t, n)
-    if flag is None:
+        if isinstance(n, ast.Compare) and len(n.ops) == 1 and isinstance(n.ops[0], ast.In) and unparse(n.comparators[0]) == nm:
+            member = n
+    if member is None:
         raise AnalysisError("_process_resend: the membership test against the no-replay set was not found")
-    ctx.instance(R5, "_process_resend[membership tested on the copy's MsgType]", flag[1], f"`{short(flag[2])}` does not test the decoded copy's MsgType (tag 35)", loc(flag[2]))
+    ok_t = isinstance(member.left, ast.Subscript) and unparse(member.left.value) == copy and fo.tag(member.left.slice) == "35"
+    ctx.instance(R5, "_process_resend[membership tested on the copy's MsgType]", ok_t, f"`{short(member)}` does not test the decoded copy's MsgType (tag 35)", loc(member))
+    admin_atoms = {unparse(member)}
+    par = getattr(member, "_parent", None)
+    if isinstance(par, ast.Assign) and par.value is member and isinstance(par.targets[0], ast.Name):
+        admin_atoms.add(par.targets[0].id)
     resend_calls = [n for n in g.nodes if n.kind == "stmt" and f"self.send_msg({copy})" in unparse(n.ast)]
     if not resend_calls:
         raise AnalysisError("_process_resend: the re-send of the copy was not found")
@@ -217,11 +242,27 @@ def run(ctx):
         fs = set()
         for t, lab in g.guards(n.id, exc=False):
             fs |= facts(t, lab == "true")
-        ok = (flag[0], False) in fs and any(a.startswith("await self.should_replay(") and not tv is True and tv is False for a, tv in [(a, not tv) for a, tv in fs])
-        # readable form: should_replay(...) must be known True on the path
-        ok = (flag[0], False) in fs and any(a.startswith("await self.should_replay(") and tv is True for a, tv in fs)
+        ok = any((a, False) in fs for a in admin_atoms) and any(a.startswith("await self.should_replay(") and tv is True for a, tv in fs)
         ctx.instance(R5, "_process_resend[re-send only for non-admin copies the application agrees to]", ok,
                      "the copy is re-sent on a path where it may be a session-level message or should_replay answered False", loc(n.ast))
+    numv = next((n.targets[0].id for n in walk_no_nested(lp) if isinstance(n, ast.Assign) and isinstance(n.targets[0], ast.Name)
+                 and "FTag.MsgSeqNum" in unparse(n.value) and copy in unparse(n.value)), None)
+    if numv is None:
+        raise AnalysisError("_process_resend: the copy's number was not found by role")
+    # the gap fill in front of a re-sent copy runs to that copy's own number: numbers without a journal row (a lost row, the
+    # numbers a multi-slot gap fill of an earlier resend stands for) are covered too
+    for n in walk_no_nested(lp):
+        if isinstance(n, ast.Assign) and isinstance(n.targets[0], ast.Subscript) and fo.tag(n.targets[0].slice) == "36":
+            names = {x.id for x in ast.walk(n.value) if isinstance(x, ast.Name)} - {"str", "int"}
+            gnode = next((x for x in g.nodes if x.kind == "stmt" and x.ast is n), None)
+            fs = set()
+            if gnode is not None:
+                for t, lab in g.guards(gnode.id, exc=False):
+                    fs |= facts(t, lab == "true")
+            guard_ok = any(tv and re.fullmatch(rf"\w+ < {numv}", a) for a, tv in fs) or any(tv and re.fullmatch(rf"{numv} > \w+", a) for a, tv in fs)
+            ctx.instance(R5, "_process_resend[gap fill before a re-sent copy ends at the copy's number]", names == {numv} and guard_ok,
+                         f"the gap fill in front of a re-sent copy ends at `{short(n.value)}` (guard facts {sorted(a for a, tv in fs if tv)[:3]}), not at the copy's own MsgSeqNum: "
+                         "a number that has no journal row is covered by nothing (1, GapFill(2->3), 4)", loc(n))
     eqh = [repo.functions.get("FMsg.__eq__"), repo.functions.get("FMsg.__hash__")]
     ok = all(f is not None for f in eqh) and "self.value" in unparse(eqh[0]) and "hash(self.value)" in unparse(eqh[1])
     ctx.instance(R5, "FMsg[__eq__/__hash__ by value]", ok, "FMsg does not compare/hash by value: the decoded MsgType string misses the enum members of the no-replay set",
